@@ -134,6 +134,31 @@ def main():
                     R.count('writer:re-block')
                 except Exception as e:
                     R.violation('oracle', inp2, f're-blocker raised {type(e).__name__}: {e}')
+            if sp is not None and bpv == 2 and tuple(sp.bs) == (4, 4, 1024) and n_il >= 2:
+                # length-3 compositions: convert -> crop -> re-block   and   convert -> re-block -> crop (whole inline blocks)
+                q1 = os.path.join(d, f'n{idx}_c.sgz'); q2 = os.path.join(d, f'n{idx}_cr.sgz')
+                inp4 = dict(inp, writer=route + ' -> crop -> re-block')
+                try:
+                    with SgzCropper(p) as c:
+                        quiet(c.write_cropped_file_by_indexes, q1, iline_index_range=(1, n_il), xline_index_range=(0, n_xl), zslices_index_range=(0, ns))
+                    with SgzConverter(q1) as c:
+                        quiet(c.convert_to_adv_sgz, q2)
+                    check_file(q2, inp4)
+                    R.case(('crop-reblock', idx), sample=inp4)
+                    R.count('writer:crop->re-block')
+                except Exception as e:
+                    R.violation('oracle', inp4, f'composition raised {type(e).__name__}: {e}')
+                q3 = os.path.join(d, f'n{idx}_adv.sgz'); q4 = os.path.join(d, f'n{idx}_advc.sgz')
+                inp5 = dict(inp, writer=route + ' -> re-block -> crop')
+                try:
+                    if os.path.exists(q3):
+                        with SgzCropper(q3) as c:
+                            quiet(c.write_cropped_file_by_indexes, q4, iline_index_range=(0, n_il), xline_index_range=(0, n_xl), zslices_index_range=(0, ns))
+                        check_file(q4, inp5, src, (n_il, n_xl, ns), hsrc)
+                        R.case(('reblock-crop', idx), sample=inp5)
+                        R.count('writer:re-block->crop')
+                except Exception as e:
+                    R.violation('oracle', inp5, f'composition raised {type(e).__name__}: {e}')
             if sp is not None and tuple(sp.bs[:2]) == (4, 4) and n_il >= 5 and n_xl >= 6:
                 q = os.path.join(d, f'n{idx}_crop.sgz')
                 box = dict(iline_index_range=(4, min(n_il, 8)), xline_index_range=(0, 4 * (n_xl // 4) if n_xl >= 8 else n_xl), zslices_index_range=(0, ns))
